@@ -310,6 +310,8 @@ class Gen:
             return self.dist_leaf()
         if r < 0.45:
             return ['tiebr', self.dist(d - 1, strict), self.leaf('plurality')]
+        if r < 0.5:     # a seatless distributor behind Conditioned: the seat count must stop at the wrapper
+            return ['cond', self.elim(d - 1), self.leaf('vps', [self.rng.randint(5, 60)]), 1]
         if r < 0.65:
             return ['cond', self.elim(d - 1), self.dist(d - 1, strict), 1]
         if r < 0.75:
@@ -480,7 +482,8 @@ def gen_boundary(rng, count):
             if rng.random() < 0.5:
                 tree = ['cond', g.elim(0), rng.choice([g.leaf('plurality'), g.leaf('vps', [rng.randint(5, 40)]),
                                                         ['pre', g.id(), 'ident', g.leaf('vps', [rng.randint(5, 40)])]]), 1]
-                yield dict(unit='tree', tree=tree, votes=g.simple_votes(parties), args={}, style='kw')
+                args = {'n_seats': rng.randint(1, 5)} if tree[2][0] == 'leaf' and tree[2][2] == 'vps' and rng.random() < 0.5 else {}
+                yield dict(unit='tree', tree=tree, votes=g.simple_votes(parties), args=args, style=rng.choice(['pos', 'kw']))
             else:
                 tree = ['byparty', g.leaf('vps', [rng.randint(20, 120)]), g.dist_leaf()]
                 yield dict(unit='tree', tree=tree, votes=g.nested_votes(consts, parties), args={}, style='kw')
